@@ -54,9 +54,8 @@ def setField (c : Codec) (o : Obj) (i : Nat) (b : Bytes) : Obj :=
 
 def findCodec (n : String) : Option Codec := Gen.allCodecs.find? (·.name == n)
 
-def cfg : Cfg := {}
 
-def handle (line : String) : String :=
+def handle (cfg : Cfg) (line : String) : String :=
   match line.trimAscii.toString.splitOn " " with
   | "enc" :: cn :: rest =>
     match findCodec cn with
@@ -78,7 +77,20 @@ def handle (line : String) : String :=
       let st := c.decode cfg c.fresh b
       "dec halt=" ++ haltStr st.halt ++ (if st.halt == .oob || st.halt == .badAlloc then "" else
         " pos=" ++ toString st.pos ++ " good=" ++ toString st.good ++ " eof=" ++ toString st.eof ++
-        " obj " ++ dumpObj c st.obj)
+        " short=" ++ toString st.short ++ " obj " ++ dumpObj c st.obj)
+    | _, _ => "bad-request"
+  | "reenc" :: cn :: hs =>
+    match findCodec cn, parseHex (String.join hs) with
+    | some c, some b =>
+      let st := c.decode cfg c.fresh b
+      if st.halt == .oob || st.halt == .badAlloc then "reenc halt=" ++ haltStr st.halt else
+      let r := "reenc halt=" ++ haltStr st.halt ++
+        " pos=" ++ toString st.pos ++ " good=" ++ toString st.good ++ " eof=" ++ toString st.eof ++
+        " short=" ++ toString st.short
+      if st.halt == .none && !st.short then
+        let e := c.encode cfg st.obj
+        r ++ " ehalt=" ++ haltStr e.halt ++ " out=" ++ toHex e.out ++ " obj " ++ dumpObj c e.obj
+      else r ++ " obj " ++ dumpObj c st.obj
     | _, _ => "bad-request"
   | ["regcheck"] =>
     "regcheck " ++ " ".intercalate (Gen.regularLayouts.map fun p =>
@@ -89,13 +101,16 @@ def handle (line : String) : String :=
     | none => "bad-class"
   | _ => "bad-request"
 
-partial def loop (hin : IO.FS.Stream) (hout : IO.FS.Stream) : IO Unit := do
+partial def loop (cfg : Cfg) (hin : IO.FS.Stream) (hout : IO.FS.Stream) : IO Unit := do
   let line ← hin.getLine
   if line.isEmpty then return ()
-  hout.putStrLn (handle line)
-  loop hin hout
+  hout.putStrLn (handle cfg line)
+  loop cfg hin hout
 
 def main : IO Unit := do
   let hin ← IO.getStdin
   let hout ← IO.getStdout
-  loop hin hout
+  let cap := match (← IO.getEnv "VERIF_CAP") with
+    | some s => s.toNat?.getD 268435456
+    | none => 268435456
+  loop { cap := cap } hin hout
